@@ -94,7 +94,8 @@ from runner import Infra
 ID = "C16"
 LEAN_MODULES = ["PyYetiVerif.Props.C16", "PyYetiVerif.Props.C16Full", "PyYetiVerif.Props.C16FullRoutine", "PyYetiVerif.Props.C16Pipe",
                 "PyYetiVerif.Props.C16Psd", "PyYetiVerif.Props.C16FullRf", "PyYetiVerif.Props.C16Stat", "PyYetiVerif.Props.C16Tree",
-                "PyYetiVerif.Props.C16Heap", "PyYetiVerif.Props.C16Labels", "PyYetiVerif.Props.C16Split", "PyYetiVerif.Audit.C16"]
+                "PyYetiVerif.Props.C16Heap", "PyYetiVerif.Props.C16Labels", "PyYetiVerif.Props.C16LabelsNest", "PyYetiVerif.Props.C16Split",
+                "PyYetiVerif.Audit.C16"]
 AUDIT_FILE = "PyYetiVerif/Audit/C16.lean"
 THEOREMS = [
     "PyYetiVerif.C16." + n
@@ -118,7 +119,8 @@ THEOREMS = [
         "merge_lists_spec form_extreme_by_label form_extreme_row_is_first_best form_extreme_label_order "
         "expand_missing_rows_neutral form_extreme_event_order_values_independent form_extreme_refuses_repeated_labels "
         "form_extreme_needs_percase_columns abscissa_none_first_counterexample cases_label_matches_column "
-        "split_pairs_cases_with_columns uf_reds_none_entries_counterexample uf_reds_none_entries_documented_partial"
+        "split_pairs_cases_with_columns uf_reds_none_entries_counterexample uf_reds_none_entries_documented_partial "
+        "form_extreme_nested_by_label_values"
     ).split()
 ]
 TRUSTED = [
@@ -185,7 +187,11 @@ PARTIAL = (
     "solvepsd(use_apply_uf=True) is driven with vector modal data only; strip_hists / set_dr_order / "
     "rptext-style reports are text and are not modelled; form_extreme by row label is proved for events that all have "
     "abscissae or all have none (form_extreme_by_label), the mixed case is in the model (tied by the labform stream) but "
-    "no by-label statement holds for its abscissae (abscissa_none_first_counterexample); the SRS envelope of events "
+    "no by-label statement holds for its abscissae (abscissa_none_first_counterexample); across NESTED levels the by-label "
+    "envelope is tied level by level (every _calc_extreme call is compared with formCat on the implementation's own lower "
+    "envelopes) and the composition is proved for the VALUES (form_extreme_nested_by_label_values), labels and abscissae "
+    "at ties across levels only for equal rows (nested_envelope_is_recursive_extrema + envelope_of_parts); the SRS "
+    "envelope of events "
     "that list different rows is outside the model; uf_reds_none_entries_documented_partial: the documented reset of "
     "None entries of uf_reds to defaults is proved only where code and docstring coincide (no None entry, or no "
     "defaults), uf_reds_none_entries_counterexample shows the difference; split() is modelled for ext / ext_x / cases "
@@ -205,8 +211,8 @@ MANIFEST = {
                   "the refinement theorem that it computes the value model's running extreme; form_extreme over events that list "
                   "different rows (merge_lists' documented equations; for every row label the envelope over exactly the events "
                   "that list it with label and abscissa of the first attaining event, per-case columns NaN where an event lacks "
-                  "the row, row order = iterated merge, values independent of the event order, missing rows never win, repeated "
-                  "labels refused); the case-label list names the per-case columns whatever the order of the calls and split() "
+                  "the row, row order = iterated merge, values independent of the event order and the same through nested levels, "
+                  "missing rows never win, repeated labels refused); the case-label list names the per-case columns whatever the order of the calls and split() "
                   "pairs each label with its own column; tie by exact / numeric correspondence on the real "
                   "code; measured only: that scipy's LU inverts the partitions, the vrs kernel (C03's model at 1e-9); three "
                   "findings are reported by the oracle (abscissa copied from another event when the first has none, KeyError for "
